@@ -94,7 +94,7 @@ def pyRhs (I : Interp) (m : PyModel) (state : List (String × Rat)) (x : String)
 def lookupLast {β} (l : List (String × β)) (k : String) : Option β := l.reverse.lookup k
 
 def SDoc.fuel (d : SDoc) : Nat :=
-  d.params.length + d.species.length + d.inits.length + d.rules.length + d.rxns.length + 1
+  d.params.length + d.species.length + d.inits.length + d.rules.length + d.rxns.length + 2
 
 def findSRxn (rxns : List SRxn) (n : String) : Option SRxn := rxns.find? (·.id == n)
 
